@@ -167,7 +167,7 @@ def list_header(header, rfc_section):
 
 
 def parse_list(value):
-    if not value:
+    if value is None:
         return None
     return tuple(filter(None, [v.strip() for v in value.split(",")]))
 
